@@ -226,6 +226,56 @@ pub fn run(action: &str, spec: &ChildSpec) -> anyhow::Result<Value> {
             }
             Ok(json!({"steps": results}))
         }
+        // Object constructors given a stand-in child circuit whose public inputs are FREE: any public-input
+        // vector then has a verifying proof, so every single- and multi-field deviation from the sentinel
+        // can be offered as a template that VERIFIES under the verifier passed to that very call. (Under
+        // the canonical circuits most deviations have no verifying proof and are caught by verification
+        // whatever the sentinel test does.)
+        "free_pi_sweep" => {
+            use plonky2::field::types::Field;
+            use plonky2::iop::witness::{PartialWitness, WitnessWrite};
+            use plonky2::plonk::circuit_builder::CircuitBuilder;
+            use plonky2::plonk::circuit_data::CircuitConfig;
+            let layer = spec.args["layer"].as_str().unwrap_or("leaf").to_string();
+            let (n, m) = (n_of(spec), m_of(spec));
+            let len = if layer == "leaf" { 21 } else { 21 * n + 8 };
+            let mut b = CircuitBuilder::<F, D>::new(CircuitConfig::standard_recursion_config());
+            let pis = b.add_virtual_targets(len);
+            // a little real structure so the stand-in is not a degenerate circuit
+            let sq = b.mul(pis[len - 1], pis[len - 1]);
+            let _ = b.add(sq, pis[0]);
+            b.register_public_inputs(&pis);
+            let data = b.build::<C>();
+            let vd = data.verifier_data();
+            let mut results = vec![];
+            for sp in spec.args["specs"].as_array().cloned().unwrap_or_default() {
+                let mut v = vec![0u64; len];
+                if layer != "leaf" {
+                    v[0] = (2 * n) as u64; // the header the layout prescribes
+                }
+                for e in sp.as_array().cloned().unwrap_or_default() {
+                    let (i, x) = (e[0].as_u64().unwrap() as usize, e[1].as_u64().unwrap());
+                    if i < len {
+                        v[i] = x;
+                    }
+                }
+                let mut pw = PartialWitness::new();
+                for (t, x) in pis.iter().zip(&v) {
+                    pw.set_target(*t, F::from_canonical_u64(*x)).unwrap();
+                }
+                let template = data.prove(pw).map_err(|e| anyhow!("stand-in proving failed: {e}"))?;
+                let verifies = vd.verify(template.clone()).is_ok();
+                let r = std::panic::catch_unwind(std::panic::AssertUnwindSafe(|| {
+                    if layer == "leaf" {
+                        PrivateBatchProver::new(wormhole_private_batch_circuit_config(), vd.common.clone(), &vd.verifier_only, n, template.clone()).map(|_| ())
+                    } else {
+                        PublicBatchProver::new(wormhole_public_batch_circuit_config(), vd.common.clone(), &vd.verifier_only, m, n, template.clone()).map(|_| ())
+                    }
+                }));
+                results.push(json!({"public_inputs": v, "verifies": verifies, "result": match r { Ok(Ok(())) => "ok", Ok(Err(_)) => "err", Err(_) => "panic" }}));
+            }
+            Ok(json!({"results": results}))
+        }
         other => anyhow::bail!("unknown child action {other}"),
     }
 }
